@@ -511,7 +511,7 @@ class SparseWorld(BaseWorld):
             self.fail('result', f"{ev['op']}: result has object dtype", detail)
         if g.shape != r.shape:
             self.fail('result-shape', f"{ev['op']}: result shape {got.shape}, NumPy {ref.shape}", detail)
-        if plan.dtype_strict and r.dtype == bool and g.dtype != bool:
+        if plan.dtype_strict and r.dtype == bool and g.dtype != bool and r.size:
             self.fail('result-dtype', f"{ev['op']}: result dtype {got.dtype}, NumPy bool", detail)
         if plan.cmp == 'exact':
             if not _same(g, r):
@@ -612,15 +612,1611 @@ class SparseWorld(BaseWorld):
 
     def abstract_state(self):
         out = []
+        relabel = {}
         for name in sorted(self.objs):
             o = self.objs[name]
             im = self.img(o)
             out.append((o.kind, 'b' if im.dtype == bool else 'f', im.shape,
-                        tuple((im != 0).ravel().tolist()), tuple(self.ro[c] for c in o.cells),
-                        tuple(o.cells)))
+                        tuple(np.sign(im.astype(float)).ravel().tolist()) if _finite(im) else 'nonfinite',
+                        tuple(self.ro[c] for c in o.cells),
+                        tuple(relabel.setdefault(c, len(relabel)) for c in o.cells)))
         return out
 
     def shared_touch(self, ev):
         other = ev.get('other') or ev.get('value') or {}
         return (ev.get('op'), ev.get('target') or ev.get('src'), ev.get('opr'),
                 other.get('name') if isinstance(other, dict) else None)
+
+    # ================================================================= plans
+    def _guard_write(self, plan, t):
+        """Writes to a read-only target must be rejected; partly read-only targets are not generated."""
+        plan.mech = True
+        st = self.ro_state(t)
+        if st == 'mixed':
+            return None
+        if st == 'ro':
+            plan.expect, plan.why = 'reject', 'readonly-write'
+        return plan
+
+    def _binder(self, dst, ref):
+        if dst is None:
+            return None
+
+        def bind(res, use_real):
+            if not _is_sparse(res):
+                return
+            if res.__class__ is SparseArray and not res.rows:
+                return
+            for o in self.objs.values():      # a result that IS a live object: alias, not a new object
+                if o.real is res:
+                    self._bind_alias(dst, res, o.cells)
+                    return
+            image = res.to_array() if (use_real or ref is None) else np.asarray(ref)
+            if image.size != int(np.prod(res.shape)):
+                return
+            self._bind_new(dst, res, image)
+        return bind
+
+    # ---------------------------------------------------------------- construction
+    def _p_new(self, ev):
+        dst, how, data = ev.get('dst'), ev.get('how'), ev.get('data')
+        if not self._dst_ok(dst):
+            return None
+        as_nd = bool(ev.get('as_nd'))
+        size = ev.get('size')
+        try:
+            arr = np.array(data) if data is not None else None
+        except Exception:
+            return None
+        if arr is not None and (arr.dtype == object or arr.size == 0 or arr.ndim not in (1, 2)):
+            return None
+        boolean = arr is not None and arr.dtype == bool
+
+        def given():
+            if as_nd:
+                return np.array(data, dtype=bool if boolean else float)
+            return _deep_list(data)
+        if how in ('sparse', 'sparse_vector', 'SparseVector', 'SparseLogicalVector'):
+            if arr is None or (arr.ndim != 1 and how != 'sparse'):
+                return None
+            if how == 'sparse':
+                ref = arr
+                run = lambda uni: sparse(given())
+            elif how == 'sparse_vector':
+                ref = arr
+                run = lambda uni: sparse_vector(given())
+            else:
+                n = len(arr)
+                if size is not None and not (isinstance(size, int) and n <= size <= 8):
+                    return None
+                ref = np.zeros(size if size is not None else n, dtype=float if how == 'SparseVector' else bool)
+                ref[:n] = arr
+                cls = SparseVector if how == 'SparseVector' else SparseLogicalVector
+                run = lambda uni: cls(given(), size) if size is not None else cls(given())
+        elif how in ('sparse_array', 'SparseArray'):
+            if arr is None or arr.ndim != 2:
+                return None
+            ref = arr
+            f = sparse_array if how == 'sparse_array' else SparseArray
+            run = lambda uni: f(given())
+        elif how in ('dict', 'from_dict', 'from_set', 'sparse_dicts'):
+            # data: list of [index, value] pairs (one list per row for sparse_dicts)
+            if not isinstance(size, int) or not 1 <= size <= 8 or not isinstance(data, list):
+                return None
+            rows = data if how == 'sparse_dicts' else [data]
+            try:
+                for row in rows:
+                    for k, v in row:
+                        if not (isinstance(k, int) and 0 <= k < size):
+                            return None
+                        if how in ('from_dict', 'from_set') and not v:
+                            return None
+            except Exception:
+                return None
+            if how == 'sparse_dicts' and not rows:
+                return None
+            ref = np.zeros((len(rows), size), dtype=bool if how == 'from_set' else float)
+            for i, row in enumerate(rows):
+                for k, v in row:
+                    ref[i, k] = v
+            if how != 'sparse_dicts':
+                ref = ref[0]
+            if how == 'dict':
+                run = lambda uni: SparseVector({k: v for k, v in data}, size)
+            elif how == 'from_dict':
+                run = lambda uni: SparseVector.from_dict({k: float(v) for k, v in data}, size)
+            elif how == 'from_set':
+                run = lambda uni: SparseLogicalVector.from_set({k for k, v in data}, size)
+            else:
+                run = lambda uni: sparse([{k: v for k, v in row} for row in rows], vector_size=size)
+        elif how in ('from_size', 'lfrom_size', 'size_only', 'lsize_only'):
+            if not isinstance(size, int) or not 1 <= size <= 8:
+                return None
+            ref = np.zeros(size, dtype=bool if how[0] == 'l' else float)
+            run = {'from_size': lambda uni: SparseVector.from_size(size),
+                   'lfrom_size': lambda uni: SparseLogicalVector.from_size(size),
+                   'size_only': lambda uni: SparseVector(size=size),
+                   'lsize_only': lambda uni: SparseLogicalVector(size=size)}[how]
+        elif how == 'from_shape':
+            if (not isinstance(size, list) or len(size) != 2
+                    or not all(isinstance(x, int) and 1 <= x <= 8 for x in size)):
+                return None
+            ref = np.zeros(size)
+            run = lambda uni: SparseArray.from_shape(list(size))
+        else:
+            return None
+        plan = Plan(run)
+        plan.ref = ref
+        plan.dtype_strict = how not in ('SparseVector',)
+        plan.bind = self._binder(dst, ref)
+        want_cls = SparseArray if np.asarray(ref).ndim == 2 else (
+            SparseLogicalVector if np.asarray(ref).dtype == bool else SparseVector)
+        if how == 'SparseVector':
+            want_cls = SparseVector
+        plan.check = lambda res: None if res.__class__ is want_cls else (
+            f'{how} returned a {type(res).__name__}, expected {want_cls.__name__}')
+        return plan
+
+    def _p_conv(self, ev):
+        src = self.objs.get(ev.get('src'))
+        dst, how = ev.get('dst'), ev.get('how')
+        if src is None or not self._dst_ok(dst):
+            return None
+        A = self.img(src)
+        name = ev['src']
+        isv = src.kind == 'v'
+        alias = False
+        ref = A
+        if how == 'copy':
+            run = lambda uni: uni[name].copy()
+        elif how == 'sparse':
+            alias, run = True, (lambda uni: sparse(uni[name]))
+        elif how in ('sparse_vector', 'sparse_vector_copy'):
+            if not isv:
+                return None
+            alias = how == 'sparse_vector'
+            run = (lambda uni: sparse_vector(uni[name])) if alias else (lambda uni: sparse_vector(uni[name], copy=True))
+        elif how in ('sparse_array', 'sparse_array_copy'):
+            if isv:
+                return None
+            alias = how == 'sparse_array'
+            run = (lambda uni: sparse_array(uni[name])) if alias else (lambda uni: sparse_array(uni[name], copy=True))
+        elif how == 'SparseVector':
+            if not isv:
+                return None
+            ref = A.astype(float)
+            run = lambda uni: SparseVector(uni[name])
+        elif how == 'SparseLogicalVector':
+            if not isv:
+                return None
+            ref = A != 0
+            run = lambda uni: SparseLogicalVector(uni[name])
+        elif how == 'SparseArray':
+            if isv:
+                return None
+            alias = True      # a new array object holding the SAME row vectors
+            run = lambda uni: SparseArray(uni[name])
+        elif how == 'abs':
+            ref = np.abs(A)
+            run = lambda uni: abs(uni[name])
+        elif how == 'neg':
+            if A.dtype == bool:
+                return None
+            ref = -A
+            run = lambda uni: -uni[name]
+        elif how == 'invert':
+            if A.dtype != bool:
+                return None
+            ref = ~A
+            run = lambda uni: ~uni[name]
+        elif how in ('getself', 'getself2'):
+            if how == 'getself2' and isv:
+                return None
+            alias = True
+            ix = slice(None) if how == 'getself' else (slice(None), slice(None))
+            run = lambda uni: uni[name][ix]
+        else:
+            return None
+        plan = Plan(run)
+        plan.ref = ref
+        plan.dtype_strict = True
+        plan.nonfinite = not _finite(ref)
+        if alias:
+            cells = list(src.cells)
+            plan.mech = True
+
+            def bind(res, use_real):
+                if _is_sparse(res):
+                    self._bind_alias(dst, res, cells)
+            plan.bind = bind
+        else:
+            plan.bind = self._binder(dst, ref)
+        return plan
+
+    def _p_rows(self, ev):
+        srcs, dst, how = ev.get('srcs'), ev.get('dst'), ev.get('how')
+        if not isinstance(srcs, list) or not srcs or len(srcs) > 3 or not self._dst_ok(dst):
+            return None
+        objs = [self.objs.get(s) for s in srcs]
+        if any(o is None or o.kind != 'v' for o in objs):
+            return None
+        cells = [o.cells[0] for o in objs]
+        if len(set(cells)) != len(cells):
+            return None
+        if len({len(self.cells[c]) for c in cells}) != 1 or len({self.cells[c].dtype for c in cells}) != 1:
+            return None
+        f = {'from_rows': SparseArray.from_rows, 'SparseArray': SparseArray, 'sparse_array': sparse_array,
+             'sparse': sparse}.get(how)
+        if f is None:
+            return None
+        plan = Plan(lambda uni: f([uni[s] for s in srcs]))
+        plan.ref = np.array([self.cells[c] for c in cells])
+        plan.dtype_strict = True
+        plan.mech = True
+        plan.nonfinite = not _finite(plan.ref)
+
+        def bind(res, use_real):
+            if res.__class__ is SparseArray:
+                self._bind_alias(dst, res, cells)
+        plan.bind = bind
+        plan.check = lambda res: None if res.__class__ is SparseArray else f'{how} returned {type(res).__name__}'
+        return plan
+
+    def _p_row(self, ev):
+        src = self.objs.get(ev.get('src'))
+        dst, how, i = ev.get('dst'), ev.get('how'), ev.get('i')
+        if src is None or src.kind != 'a' or not self._dst_ok(dst):
+            return None
+        m = len(src.cells)
+        name = ev['src']
+        if how in ('int', 'tuple', 'iter'):
+            if not isinstance(i, int) or isinstance(i, bool) or not 0 <= i < m:
+                return None
+            sel = [i]
+            vector = True
+            if how == 'int':
+                run = lambda uni: uni[name][i]
+            elif how == 'tuple':
+                run = lambda uni: uni[name][i, :]
+            else:
+                run = lambda uni: [row for row in uni[name]][i]
+        elif how in ('list', 'nd', 'tlist'):
+            if (not isinstance(i, list) or not i or len(set(i)) != len(i)
+                    or not all(isinstance(k, int) and not isinstance(k, bool) and 0 <= k < m for k in i)):
+                return None
+            sel = list(i)
+            vector = False
+            if how == 'list':
+                run = lambda uni: uni[name][list(i)]
+            elif how == 'nd':
+                run = lambda uni: uni[name][np.array(i, dtype=int)]
+            else:
+                run = lambda uni: uni[name][list(i), :]
+        elif how in ('mask', 'ndmask', 'tmask'):
+            if not isinstance(i, list) or len(i) != m or not all(isinstance(k, bool) for k in i) or not any(i):
+                return None
+            sel = [k for k, b in enumerate(i) if b]
+            vector = False
+            if how == 'mask':
+                run = lambda uni: uni[name][list(i)]
+            elif how == 'ndmask':
+                run = lambda uni: uni[name][np.array(i, dtype=bool)]
+            else:
+                run = lambda uni: uni[name][list(i), :]
+        elif how == 'slice':
+            ix = self._index({'t': 'slice', 'a': i[0], 'b': i[1], 's': i[2]} if isinstance(i, list) and len(i) == 3
+                             else None, (m,), False)
+            if ix is None:
+                return None
+            sel = list(range(m))[ix]
+            if not sel:
+                return None
+            vector = False
+            run = lambda uni: uni[name][ix]
+        else:
+            return None
+        cells = [src.cells[k] for k in sel]
+        plan = Plan(run)
+        A = self.img(src)
+        plan.ref = A[sel[0]] if vector else A[sel]
+        plan.dtype_strict = True
+        plan.mech = True
+        plan.nonfinite = not _finite(plan.ref)
+        want = (SparseVector, SparseLogicalVector) if vector else (SparseArray,)
+        plan.check = lambda res: None if res.__class__ in want else (
+            f'row selection {how} returned a {type(res).__name__}')
+
+        def bind(res, use_real):
+            if res.__class__ in want:
+                self._bind_alias(dst, res, cells)
+        plan.bind = bind
+        return plan
+
+    def _p_drop(self, ev):
+        name = ev.get('target')
+        if name not in self.objs or len(self.objs) <= 2:
+            return None
+
+        def run(uni):
+            return None
+        plan = Plan(run)
+
+        def bind(res, use_real):
+            del self.objs[name]
+        plan.bind = bind
+        plan.cmp = 'none'
+        return plan
+
+    # ---------------------------------------------------------------- get / set
+    def _form_supported(self, t, spec, setting):
+        """Index forms outside what tests/test_sparse.py exercises (convention v) are not generated:
+        a boolean mask next to a non-slice partner, an ndarray column index next to a row slice
+        (raises ValueError in `n == open_slice`), fancy-row/int-column assignment on logical arrays."""
+        if spec.get('t') != 'tuple' or len(spec.get('e', [])) != 2:
+            return True
+        e0, e1 = spec['e'][0].get('t'), spec['e'][1].get('t')
+        if e0 == 'mask' and e1 != 'slice':
+            return False
+        if e1 == 'mask' and e0 == 'mask':
+            return False
+        if e1 == 'nd' and e0 == 'slice':
+            return False
+        if setting and self.is_bool(t) and e0 in ('list', 'nd') and e1 == 'int':
+            return False
+        return True
+
+    def _p_get(self, ev):
+        t = self.objs.get(ev.get('target'))
+        if t is None or not isinstance(ev.get('index'), dict):
+            return None
+        shape = self.shape(t)
+        ni = self._index(ev.get('index'), shape, True)
+        if ni is None or not self._form_supported(t, ev['index'], False):
+            return None
+        A = self.img(t)
+        try:
+            ref = A[ni]
+        except (IndexError, ValueError):
+            return None
+        if t.kind == 'a' and np.size(ref) == 0:
+            return None      # a SparseArray without rows cannot carry its width
+        name, spec = ev['target'], ev['index']
+        plan = Plan(lambda uni: uni[name][self._index(spec, shape, False, uni)])
+        plan.ref = np.array(ref)
+        plan.dtype_strict = True
+        plan.nonfinite = not _finite(ref)
+        return plan
+
+    def _p_set(self, ev):
+        t = self.objs.get(ev.get('target'))
+        if t is None or not self._operand_ok(ev.get('value')):
+            return None
+        shape = self.shape(t)
+        if not isinstance(ev.get('index'), dict):
+            return None
+        ni = self._index(ev.get('index'), shape, True)
+        if ni is None or not self._form_supported(t, ev['index'], True):
+            return None
+        A = self.img(t)
+        V = self._operand_np(ev['value'])
+        if np.asarray(V).dtype == object:
+            return None
+        try:
+            nsel = np.size(A[ni])
+        except (IndexError, ValueError):
+            return None
+        if nsel == 0 and (t.kind == 'a' or np.ndim(V) > 0):
+            return None
+        A2 = A.copy()
+        name, spec, vspec = ev['target'], ev['index'], ev['value']
+        plan = Plan(lambda uni: uni[name].__setitem__(self._index(spec, shape, False, uni),
+                                                      self._operand_real(vspec, uni)))
+        plan.cmp = 'none'
+        plan.target = t
+        try:
+            A2[ni] = V
+        except ValueError:
+            plan.expect, plan.why = 'reject', 'shape-mismatch'
+            plan.mech = True
+            return plan if self.ro_state(t) != 'mixed' else None
+        except (IndexError, TypeError):
+            return None
+        plan.writes = (t, A2)
+        plan.nonfinite = not (_finite(A) and _finite(V))
+        return self._guard_write(plan, t)
+
+    # ---------------------------------------------------------------- arithmetic
+    def _binop_ref(self, opr, A, B, refl):
+        """NumPy reference of A opr B; returns (status, value): 'ok' | 'mismatch' | 'none'."""
+        f = BINOPS[opr]
+        Bn = np.asarray(B)
+        if Bn.dtype == object:
+            return 'none', None
+        if opr in LOGICAL and not (A.dtype == bool and Bn.dtype == bool):
+            return 'none', None
+        if opr == 'truediv':
+            div = A if refl else Bn
+            if bool(np.any(div == 0)):
+                return 'none', None
+        try:
+            ref = f(Bn, A) if refl else f(A, Bn)
+        except ValueError:
+            return 'mismatch', None
+        except TypeError:
+            return 'none', None
+        if ref is NotImplemented or not isinstance(ref, (np.ndarray, np.generic)):
+            return 'none', None
+        return 'ok', np.asarray(ref)
+
+    def _p_binop(self, ev):
+        t = self.objs.get(ev.get('target'))
+        opr, other, dst = ev.get('opr'), ev.get('other'), ev.get('dst')
+        if t is None or opr not in BINOPS or not self._operand_ok(other):
+            return None
+        if dst is not None and not self._dst_ok(dst):
+            return None
+        refl = bool(ev.get('refl'))
+        if refl and other['k'] == 'ref':
+            return None
+        A = self.img(t)
+        B = self._operand_np(other)
+        status, ref = self._binop_ref(opr, A, B, refl)
+        if status == 'none':
+            return None
+        f = BINOPS[opr]
+        name = ev['target']
+        if refl:
+            run = lambda uni: f(self._operand_real(other, uni), uni[name])
+        else:
+            run = lambda uni: f(uni[name], self._operand_real(other, uni))
+        plan = Plan(run)
+        if status == 'mismatch':
+            plan.expect, plan.why = 'reject', 'shape-mismatch'
+            return plan
+        plan.ref = ref
+        plan.dtype_strict = opr in COMPARE or opr in LOGICAL
+        plan.nonfinite = not (_finite(A) and _finite(B) and _finite(ref))
+        plan.bind = self._binder(dst, ref)
+        if set(self._operand_cells(other)) & set(t.cells):
+            plan.mech = True
+        return plan
+
+    def _p_iop(self, ev):
+        t = self.objs.get(ev.get('target'))
+        opr, other = ev.get('opr'), ev.get('other')
+        if t is None or opr not in IOPS or not self._operand_ok(other):
+            return None
+        base = opr[1:]
+        A = self.img(t)
+        B = self._operand_np(other)
+        status, out = self._binop_ref(base, A, B, False)
+        if status == 'none':
+            return None
+        f = IOPS[opr]
+        name = ev['target']
+        form = ev.get('form', 'plain')
+        if form == 'plain':
+            run = lambda uni: f(uni[name], self._operand_real(other, uni))
+        elif form == 'slice':
+            def run(uni):
+                x = uni[name]
+                y = x[slice(None)]
+                y = f(y, self._operand_real(other, uni))
+                x[slice(None)] = y
+                return x
+        else:
+            return None
+        plan = Plan(run)
+        plan.target = t
+        if status == 'mismatch':
+            plan.expect, plan.why = 'reject', 'shape-mismatch'
+            plan.mech = True
+            return plan if self.ro_state(t) != 'mixed' else None
+        if out.shape != A.shape:
+            return None           # convention (iii): NumPy itself refuses this in-place form
+        A2 = A.copy()
+        try:
+            A2 = f(A2, np.asarray(B))
+        except (TypeError, ValueError):
+            return None
+        if A2.shape != A.shape or A2.dtype != A.dtype:
+            return None
+        plan.ref = A2
+        plan.writes = (t, A2)
+        plan.nonfinite = not (_finite(A) and _finite(B) and _finite(A2))
+        real_t = t.real
+        plan.check = lambda res: None if res is real_t else 'in-place operator returned a different object'
+        return self._guard_write(plan, t)
+
+    def _p_reduce(self, ev):
+        t = self.objs.get(ev.get('target'))
+        fn, axis, keep, dst = ev.get('fn'), ev.get('axis'), bool(ev.get('keepdims')), ev.get('dst')
+        if t is None or fn not in REDUCTIONS:
+            return None
+        if dst is not None and not self._dst_ok(dst):
+            return None
+        A = self.img(t)
+        if axis is not None and not (isinstance(axis, int) and 0 <= axis < A.ndim):
+            return None
+        ref = getattr(A, fn)(axis=axis, keepdims=keep)
+        name = ev['target']
+        style = ev.get('style', 'kw')
+        if style == 'pos':
+            run = lambda uni: getattr(uni[name], fn)(axis, keep)
+        elif style == 'default' and axis is None and not keep:
+            run = lambda uni: getattr(uni[name], fn)()
+        else:
+            run = lambda uni: getattr(uni[name], fn)(axis=axis, keepdims=keep)
+        plan = Plan(run)
+        plan.ref = ref
+        plan.nonfinite = not _finite(A)
+        if fn in ('sum', 'mean') and A.dtype != bool:
+            plan.cmp = 'tol'
+            scale = np.abs(A).sum(axis=axis, keepdims=keep)
+            plan.scale = scale * A.size
+        plan.dtype_strict = fn in ('any', 'all')
+        plan.bind = self._binder(dst, None if plan.cmp == 'tol' else ref)
+        return plan
+
+    # ---------------------------------------------------------------- other writes
+    def _p_clear(self, ev):
+        t = self.objs.get(ev.get('target'))
+        if t is None or (t.kind == 'v' and self.is_bool(t)):
+            return None      # SparseLogicalVector has no clear()
+        name = ev['target']
+        plan = Plan(lambda uni: uni[name].clear())
+        plan.cmp = 'none'
+        plan.target = t
+        plan.writes = (t, np.zeros_like(self.img(t)))
+        return self._guard_write(plan, t)
+
+    def _p_setflags(self, ev):
+        t = self.objs.get(ev.get('target'))
+        if t is None or self.is_bool(t):
+            return None      # logical vectors carry no read-only flag
+        name = ev['target']
+        plan = Plan(lambda uni: uni[name].setflags(0))
+        plan.cmp = 'none'
+        plan.mech = True
+        cells = list(t.cells)
+
+        def bind(res, use_real):
+            for c in cells:
+                self.ro[c] = True
+        plan.bind = bind
+        return plan
+
+    def _p_remove_negatives(self, ev):
+        t = self.objs.get(ev.get('target'))
+        if t is None:
+            return None
+        A = self.img(t)
+        name = ev['target']
+        plan = Plan(lambda uni: uni[name].remove_negatives())
+        plan.cmp = 'none'
+        plan.target = t
+        A2 = A.copy()
+        if A.dtype != bool:
+            A2[A2 < 0] = 0
+        plan.writes = (t, A2)
+        if A.dtype == bool:
+            plan.mech = True
+            return plan          # documented no-op for logical data, nothing to reject
+        return self._guard_write(plan, t)
+
+    def _p_mix_from(self, ev):
+        t = self.objs.get(ev.get('target'))
+        others = ev.get('others')
+        if t is None or t.kind != 'v' or self.is_bool(t) or not isinstance(others, list) or len(others) > 4:
+            return None
+        objs = [self.objs.get(s) for s in others]
+        n = self.shape(t)[0]
+        if any(o is None or o.kind != 'v' or self.is_bool(o) or self.shape(o)[0] != n for o in objs):
+            return None
+        imgs = [self.img(o) for o in objs]
+        name = ev['target']
+        plan = Plan(lambda uni: uni[name].mix_from([uni[s] for s in others]))
+        plan.target = t
+        if imgs:
+            new = np.sum(np.array(imgs), axis=0)
+            scale = np.sum(np.abs(np.array(imgs)), axis=0) * (len(imgs) + 1)
+        else:
+            new = np.zeros(n)
+            scale = np.zeros(n)
+        plan.cmp = 'tol'
+        plan.scale = scale
+        plan.writes = (t, new)
+        plan.nonfinite = not all(_finite(i) for i in imgs)
+        return self._guard_write(plan, t)
+
+    def _p_copy_like(self, ev):
+        t = self.objs.get(ev.get('target'))
+        o = self.objs.get(ev.get('other'))
+        if t is None or o is None or self.is_bool(t) or t.kind != o.kind or self.shape(t) != self.shape(o):
+            return None
+        name, oname = ev['target'], ev['other']
+        plan = Plan(lambda uni: uni[name].copy_like(uni[oname]))
+        plan.cmp = 'none'
+        plan.target = t
+        plan.writes = (t, self.img(o).astype(float))
+        plan.nonfinite = not _finite(self.img(o))
+        return self._guard_write(plan, t)
+
+    def _p_from_flat(self, ev):
+        t = self.objs.get(ev.get('target'))
+        data = ev.get('data')
+        if t is None or not isinstance(data, list):
+            return None
+        A = self.img(t)
+        try:
+            V = np.array(data)
+        except Exception:
+            return None
+        if V.ndim != 1 or V.size != A.size or V.dtype == object:
+            return None
+        name = ev['target']
+        as_nd = bool(ev.get('as_nd'))
+        plan = Plan(lambda uni: uni[name].from_flat_array(np.array(data) if as_nd else list(data)))
+        plan.cmp = 'none'
+        plan.target = t
+        A2 = A.copy()
+        A2[...] = V.reshape(A.shape)
+        plan.writes = (t, A2)
+        plan.nonfinite = not _finite(V)
+        if A.dtype == bool:
+            plan.mech = True
+            return plan
+        return self._guard_write(plan, t)
+
+    # ---------------------------------------------------------------- read-only queries
+    def _p_dense(self, ev):
+        t = self.objs.get(ev.get('target'))
+        how = ev.get('how')
+        if t is None:
+            return None
+        A = self.img(t)
+        name = ev['target']
+        plan = Plan(None)
+        plan.ref = A
+        plan.dtype_strict = True
+        plan.nonfinite = not _finite(A)
+        if how == 'to_array':
+            plan.run = lambda uni: uni[name].to_array()
+        elif how == 'value':
+            plan.run = lambda uni: uni[name].value
+        elif how == 'astype_float':
+            plan.ref = A.astype(float)
+            plan.run = lambda uni: uni[name].astype(float)
+        elif how in ('tolist', 'to_list'):
+            plan.run = lambda uni: getattr(uni[name], how)()
+            plan.check = lambda res: None if isinstance(res, list) else f'{how} returned {type(res).__name__}'
+        elif how == 'to_flat_array':
+            plan.ref = A.ravel()
+            plan.dtype_strict = t.kind == 'v'     # SparseArray.to_flat_array fills a float buffer
+            plan.run = lambda uni: uni[name].to_flat_array()
+        elif how == 'to_flat_array_into':
+            plan.ref = A.ravel()
+            fill = 7 if A.dtype != bool else True
+
+            holder = []
+
+            def run(uni):
+                arr = np.full(A.size, fill, dtype=A.dtype)
+                holder[:] = [arr]
+                return uni[name].to_flat_array(arr)
+            plan.run = run
+            plan.check = lambda res: None if res is holder[0] else 'to_flat_array(arr) did not return arr'
+        elif how == 'asarray':
+            plan.run = lambda uni: np.asarray(uni[name])
+        elif how == 'iter':
+            if t.kind == 'v':
+                plan.run = lambda uni: [x for x in uni[name]]
+            else:
+                plan.run = lambda uni: [row.to_array() for row in uni[name]]
+        elif how == 'len':
+            plan.ref = None
+            plan.run = lambda uni: len(uni[name])
+            plan.check = lambda res: None if res == A.shape[0] else f'len() is {res}, NumPy {A.shape[0]}'
+        elif how in ('shape', 'size', 'vector_size', 'ndim'):
+            want = {'shape': A.shape, 'size': A.size, 'vector_size': A.shape[-1], 'ndim': A.ndim}[how]
+            plan.ref = None
+            plan.run = lambda uni: getattr(uni[name], how)
+            plan.check = lambda res: None if res == want and type(res) is type(want) else (
+                f'{how} is {res!r}, NumPy {want!r}')
+        elif how == 'dtype':
+            want = bool if A.dtype == bool else float
+            plan.ref = None
+            plan.run = lambda uni: uni[name].dtype
+            plan.check = lambda res: None if res is want else f'dtype is {res!r}, expected {want!r}'
+        elif how in ('float', 'bool', 'int'):
+            if A.size != 1 or not _finite(A):
+                return None
+            cast = {'float': float, 'bool': bool, 'int': int}[how]
+            want = cast(A.ravel()[0])
+            plan.ref = None
+            plan.run = lambda uni: cast(uni[name])
+            plan.check = lambda res: None if res == want and type(res) is type(want) else (
+                f'{how}() is {res!r}, NumPy {want!r}')
+        elif how == 'str':
+            want = str(A + 0.0 if A.dtype != bool else A)     # -0.0 is not representable sparsely
+            plan.ref = None
+            plan.run = lambda uni: str(uni[name])
+            plan.check = lambda res: None if res == want else f'str() is {res!r}, NumPy {want!r}'
+        else:
+            return None
+        return plan
+
+    def _p_query(self, ev):
+        t = self.objs.get(ev.get('target'))
+        how = ev.get('how')
+        if t is None:
+            return None
+        A = self.img(t)
+        name = ev['target']
+        isv = t.kind == 'v'
+        boolean = A.dtype == bool
+        plan = Plan(None)
+        plan.cmp = 'none'
+        nz = np.nonzero(A)
+
+        def pairs(where):
+            return sorted(zip(*[w.tolist() for w in where])) if not isv else sorted(where[0].tolist())
+
+        def as_pairs(res):
+            if not isinstance(res, tuple) or len(res) != A.ndim:
+                raise TypeError(f'expected a {A.ndim}-tuple of index lists, got {res!r}')
+            if isv:
+                return sorted(int(i) for i in res[0])
+            return sorted(zip(*[[int(i) for i in w] for w in res]))
+        if how in ('nonzero_index', 'nonzero', 'positive_index', 'negative_index'):
+            if how == 'negative_index' and isv and boolean:
+                return None      # not exercised for logical vectors by the library's own tests
+            where = {'nonzero_index': nz, 'nonzero': nz, 'positive_index': np.nonzero(A > 0),
+                     'negative_index': np.nonzero(A < 0)}[how]
+            want = pairs(where)
+            plan.run = lambda uni: getattr(uni[name], how)()
+
+            def check(res):
+                try:
+                    got = as_pairs(res)
+                except Exception as e:
+                    return f'{how}() unusable: {e}'
+                if got != want:
+                    return f'{how}() gives {got}, NumPy {want}'
+                if how in ('nonzero_index', 'nonzero') and isv and not boolean and list(res[0]) != want:
+                    return f'{how}() not sorted: {res[0]}'
+            plan.check = check
+        elif how in ('nonzero_keys', 'negative_keys'):
+            if how == 'negative_keys' and isv and boolean:
+                return None
+            where = nz if how == 'nonzero_keys' else np.nonzero(A < 0)
+            want = sorted(set(where[-1].tolist()))
+            plan.run = lambda uni: getattr(uni[name], how)()
+
+            def check(res):
+                try:
+                    got = sorted(int(i) for i in res)
+                except Exception as e:
+                    return f'{how}() unusable: {e}'
+                if got != want:
+                    return f'{how}() gives {got}, NumPy {want}'
+            plan.check = check
+        elif how == 'nonzero_values':
+            want = sorted(A[nz].astype(float).tolist()) if _finite(A) else None
+            plan.run = lambda uni: [x for x in uni[name].nonzero_values()]
+
+            def check(res):
+                if want is None:
+                    return None
+                got = sorted(float(x) for x in res)
+                if got != want:
+                    return f'nonzero_values() gives {got}, NumPy {want}'
+            plan.check = check
+        elif how in ('nonzero_items', 'nonzero_items_fn'):
+            if not _finite(A):
+                return None
+            if isv:
+                want = {int(i): float(A[i]) for i in nz[0]}
+            else:
+                want = {(int(i), int(j)): float(A[i, j]) for i, j in zip(*nz)}
+            if how == 'nonzero_items':
+                plan.run = lambda uni: [x for x in uni[name].nonzero_items()]
+            else:
+                plan.run = lambda uni: [x for x in nonzero_items(uni[name])]
+
+            def check(res):
+                got = {}
+                for k, v in res:
+                    k = int(k) if isv else (int(k[0]), int(k[1]))
+                    if k in got:
+                        return f'{how}: index {k} listed twice'
+                    got[k] = float(v)
+                if got != want:
+                    return f'{how} gives {got}, NumPy {want}'
+            plan.check = check
+        elif how in ('nonzero_rows', 'negative_rows'):
+            if isv:
+                return None
+            mask = (A != 0) if how == 'nonzero_rows' else (A < 0)
+            want = [int(i) for i in np.nonzero(mask.any(axis=1))[0]]
+            plan.run = lambda uni: getattr(uni[name], how)()
+            plan.check = lambda res: None if [int(i) for i in res] == want else (
+                f'{how}() gives {list(res)}, NumPy {want}')
+        elif how == 'has_negatives':
+            want = bool((A < 0).any())
+            plan.run = lambda uni: uni[name].has_negatives()
+            plan.check = lambda res: None if bool(res) == want else f'has_negatives() is {res}, NumPy {want}'
+        else:
+            return None
+        return plan
+
+    def _p_sum_of(self, ev):
+        t = self.objs.get(ev.get('target'))
+        index, axis = ev.get('index'), ev.get('axis')
+        if t is None:
+            return None
+        A = self.img(t)
+        n = A.shape[-1]
+        if isinstance(index, list):
+            if not index or not all(isinstance(i, int) and not isinstance(i, bool) and 0 <= i < n for i in index):
+                return None
+            if len(set(index)) != len(index):
+                return None
+        elif not (isinstance(index, int) and not isinstance(index, bool) and 0 <= index < n):
+            return None
+        name = ev['target']
+        plan = Plan(None)
+        if t.kind == 'v':
+            if axis is not None:
+                return None
+            sub = A[index]
+            plan.ref = sub.sum() if isinstance(index, list) else sub
+            plan.scale = np.abs(sub).sum() * (np.size(sub) + 1)
+            plan.run = lambda uni: uni[name].sum_of(list(index) if isinstance(index, list) else index)
+        else:
+            if axis not in (0, 1):
+                return None
+            sub = A[:, index]
+            if axis == 0:
+                plan.ref = sub.sum(axis=0)
+                plan.scale = np.abs(sub).sum(axis=0) * (len(A) + 1)
+            else:
+                if not isinstance(index, list):
+                    plan.ref = sub
+                    plan.scale = np.abs(sub)
+                else:
+                    plan.ref = sub.sum(axis=1)
+                    plan.scale = np.abs(sub).sum(axis=1) * (len(index) + 1)
+            plan.run = lambda uni: uni[name].sum_of(list(index) if isinstance(index, list) else index, axis=axis)
+        plan.cmp = 'tol'
+        plan.nonfinite = not _finite(A)
+        return plan
+
+    def _p_sparse_equal(self, ev):
+        t = self.objs.get(ev.get('target'))
+        other = ev.get('other')
+        if t is None or not self._operand_ok(other):
+            return None
+        A = self.img(t)
+        B = np.asarray(self._operand_np(other))
+        if B.shape != A.shape or (B.dtype == bool) != (A.dtype == bool) or B.dtype == object:
+            return None
+        if not (_finite(A) and _finite(B)):
+            return None
+        want = bool(np.array_equal(A, B))
+        name = ev['target']
+        plan = Plan(lambda uni: uni[name].sparse_equal(self._operand_real(other, uni)))
+        plan.cmp = 'none'
+        plan.check = lambda res: None if bool(res) == want else f'sparse_equal is {res}, NumPy array_equal {want}'
+        return plan
+
+    def _p_shares(self, ev):
+        t = self.objs.get(ev.get('target'))
+        o = self.objs.get(ev.get('other'))
+        if t is None or o is None or (t.kind == 'v' and self.is_bool(t)):
+            return None      # SparseLogicalVector has no shares_data_with
+        want = bool(set(t.cells) & set(o.cells))
+        name, oname = ev['target'], ev['other']
+        plan = Plan(lambda uni: uni[name].shares_data_with(uni[oname]))
+        plan.cmp = 'none'
+        plan.mech = True
+        plan.check = lambda res: None if bool(res) == want else (
+            f'shares_data_with is {res}, alias map says {want}')
+        return plan
+
+    # ================================================================= generation
+    def gen(self, rngs):
+        r = rngs.args
+        ops = self.cfg['ops']
+        weights = [OP_WEIGHT.get(o, 1) for o in ops]
+        for _ in range(60):
+            op = rngs.sched.choices(ops, weights)[0]
+            f7 = rngs.fault.random() < self.cfg.get('p_f7', 0.0)
+            ev = getattr(self, '_c_' + op)(r, f7)
+            if ev is None:
+                continue
+            with np.errstate(all='ignore'):
+                plan = getattr(self, '_p_' + op)(ev)
+            if plan is None:
+                continue
+            reg = self.in_region(ev, plan)
+            if reg:
+                self.stats['region:' + reg] += 1
+                continue
+            return ev
+        return {'op': 'noop'}
+
+    def in_region(self, ev, plan):
+        for rid in sorted(self.regions):
+            pred = REGIONS.get(rid)
+            if pred is not None and pred(self, ev, plan):
+                return rid
+        return None
+
+    # ---------------------------------------------------------------- random pieces
+    def _names(self, pred=None):
+        return [k for k in sorted(self.objs) if pred is None or pred(self.objs[k])]
+
+    def _pick(self, r, pred=None, prefer_ro=False):
+        names = self._names(pred)
+        if not names:
+            return None
+        if prefer_ro:
+            ro = [k for k in names if self.ro_state(self.objs[k]) == 'ro']
+            if ro:
+                return r.choice(ro)
+        return r.choice(names)
+
+    def _dst(self, r):
+        if len(self.objs) < MAX_OBJS and r.random() < 0.75:
+            k = 0
+            while f'o{k}' in self.objs:
+                k += 1
+            return f'o{k}'
+        return r.choice(sorted(self.objs))
+
+    def _val(self, r, boolean=False, nonzero=False):
+        return _rand_val(r, self.cfg['vals'], self.cfg['pz'], boolean, nonzero)
+
+    def _nested(self, r, shape, boolean=False, nonzero=False):
+        if not shape:
+            return self._val(r, boolean, nonzero)
+        return [self._nested(r, shape[1:], boolean, nonzero) for _ in range(shape[0])]
+
+    def _array_spec(self, r, shape, boolean, nonzero, as_nd):
+        v = self._nested(r, tuple(shape), boolean, nonzero)
+        if as_nd:
+            return {'k': 'nd', 'v': v, 'dt': 'b' if boolean else 'f'}
+        return {'k': 'py', 'v': v}
+
+    def _aliases_of(self, name):
+        t = self.objs[name]
+        cs = set(t.cells)
+        return [k for k in sorted(self.objs) if cs & set(self.objs[k].cells)]
+
+    def _rand_operand(self, r, tname, opr, nonzero=False, mismatch=False):
+        t = self.objs[tname]
+        tshape = self.shape(t)
+        tbool = self.is_bool(t)
+        n = tshape[-1]
+        m = tshape[0] if len(tshape) == 2 else r.randint(1, 3)
+        if opr in LOGICAL:
+            boolean = True
+        elif tbool:
+            boolean = r.random() < 0.6
+        else:
+            boolean = r.random() < 0.1
+        kind = r.choice(self.cfg['okinds'])
+        if r.random() < self.cfg.get('p_self', 0.1):
+            kind = 'self'
+        if mismatch:
+            if n < 2:
+                return None
+            if kind in ('scalar', 'bscalar', 'nd0', 'deep', 'self'):
+                kind = r.choice(['list1', 'nd1', 'list2', 'nd2', 'ref'])
+        if kind == 'scalar':
+            return {'k': 'py', 'v': self._val(r, boolean, nonzero)}
+        if kind == 'bscalar':
+            return {'k': 'py', 'v': self._val(r, True, nonzero)}
+        if kind == 'nd0':
+            return {'k': 'nd', 'v': self._val(r, False, nonzero), 'dt': 'f'}
+        if kind in ('list1', 'nd1'):
+            L = n + 1 if mismatch else (1 if r.random() < 0.2 else n)
+            return self._array_spec(r, (L,), boolean, nonzero, kind == 'nd1')
+        if kind in ('list2', 'nd2'):
+            mm = 1 if r.random() < 0.25 else m
+            L = 1 if (r.random() < 0.15 and (mm == 1 or n == 1)) else n
+            if mismatch:
+                if len(tshape) == 2 and m >= 2 and r.random() < 0.5:
+                    mm = m + 1
+                else:
+                    L = n + 1
+            return self._array_spec(r, (mm, L), boolean, nonzero, kind == 'nd2')
+        if kind == 'deep':
+            shape = r.choice([(1, 1), (1, 1, 1), (1, 1, n), (1, n)])
+            return self._array_spec(r, shape, boolean, nonzero, r.random() < 0.5)
+        if kind == 'self':
+            cands = self._aliases_of(tname)
+            if nonzero:
+                cands = [k for k in cands if not np.any(self.img(self.objs[k]) == 0)]
+            if cands:
+                return {'k': 'ref', 'name': r.choice(cands)}
+            kind = 'ref'
+        # 'ref': another live object
+        cands = []
+        for k in sorted(self.objs):
+            o = self.objs[k]
+            sh = self.shape(o)
+            ok = sh[-1] in (n, 1)
+            if len(sh) == 2 and len(tshape) == 2 and sh[0] not in (tshape[0], 1):
+                ok = False
+            if mismatch:
+                ok = sh[-1] not in (n, 1)
+            if opr in LOGICAL and not self.is_bool(o):
+                ok = False
+            if nonzero and np.any(self.img(o) == 0):
+                ok = False
+            if ok:
+                cands.append(k)
+        if cands:
+            return {'k': 'ref', 'name': r.choice(cands)}
+        if mismatch:
+            return self._array_spec(r, (n + 1,), boolean, nonzero, False)
+        return {'k': 'py', 'v': self._val(r, boolean, nonzero)}
+
+    def _rand_index1(self, r, n, allow=('int', 'slice', 'full', 'list', 'nd', 'mask', 'ndmask')):
+        t = r.choice(allow)
+        if t == 'int':
+            return {'t': 'int', 'i': r.randrange(n)}
+        if t == 'full':
+            return {'t': 'slice', 'a': None, 'b': None, 's': None}
+        if t == 'slice':
+            a = r.randint(0, n - 1)
+            b = r.randint(a, n)
+            return {'t': 'slice', 'a': None if r.random() < 0.3 else a, 'b': None if r.random() < 0.3 else b,
+                    's': r.choice([None, None, 1, 2])}
+        if t in ('list', 'nd'):
+            k = r.randint(1, min(n, 3))
+            v = [r.randrange(n) for _ in range(k)] if r.random() < 0.3 else r.sample(range(n), k)
+            return {'t': t, 'v': v}
+        v = [r.random() < 0.5 for _ in range(n)]
+        return {'t': 'mask', 'v': v, 'nd': t == 'ndmask'}
+
+    def _rand_index(self, r, tname):
+        t = self.objs[tname]
+        shape = self.shape(t)
+        smasks = [k for k in sorted(self.objs)
+                  if self.is_bool(self.objs[k]) and self.shape(self.objs[k]) == shape]
+        if smasks and r.random() < 0.1:
+            return {'t': 'smask', 'name': r.choice(smasks)}
+        if len(shape) == 1:
+            ix = self._rand_index1(r, shape[0])
+            if r.random() < 0.12 and ix['t'] in ('int', 'list', 'slice'):
+                return {'t': 'tuple', 'e': [ix]}
+            return ix
+        m, n = shape
+        u = r.random()
+        if u < 0.35:
+            return self._rand_index1(r, m)
+        if u < 0.42:
+            return {'t': 'mask2', 'v': [[r.random() < 0.5 for _ in range(n)] for _ in range(m)]}
+        e0 = self._rand_index1(r, m, ('int', 'int', 'slice', 'full', 'full', 'list', 'nd', 'mask', 'ndmask'))
+        e1 = self._rand_index1(r, n, ('int', 'int', 'slice', 'full', 'list', 'nd', 'mask'))
+        adv0, adv1 = e0['t'] in ('list', 'nd', 'mask'), e1['t'] in ('list', 'nd', 'mask')
+        if adv0 and adv1:
+            if e0['t'] == 'mask' or e1['t'] == 'mask':
+                e1 = self._rand_index1(r, n, ('int', 'slice', 'full'))
+            else:
+                k = min(len(e0['v']), len(e1['v']))
+                e0 = dict(e0, v=e0['v'][:k])
+                e1 = dict(e1, v=e1['v'][:k])
+        return {'t': 'tuple', 'e': [e0, e1]}
+
+    # ---------------------------------------------------------------- candidates
+    def _c_new(self, r, f7):
+        cfg = self.cfg
+        kind = r.choice(cfg['kinds'])
+        boolean = kind in ('lv', 'sab')
+        n = 1 if r.random() < 0.12 else cfg['n']
+        m = 1 if r.random() < 0.2 else cfg['m']
+        ev = {'op': 'new', 'dst': self._dst(r)}
+        if kind in ('sv', 'lv'):
+            how = r.choice(['sparse', 'sparse_vector', 'SparseVector', 'SparseLogicalVector', 'dict',
+                            'from_dict', 'from_set', 'from_size', 'lfrom_size', 'size_only', 'lsize_only'])
+            if how in ('sparse', 'sparse_vector', 'SparseVector', 'SparseLogicalVector'):
+                if how == 'SparseVector':
+                    boolean = r.random() < 0.2
+                elif how == 'SparseLogicalVector':
+                    boolean = r.random() < 0.8
+                ev.update(how=how, data=_rand_data(r, 'lv' if boolean else 'sv', 1, n, cfg['vals'], cfg['pz']),
+                          as_nd=r.random() < 0.4)
+                if how in ('SparseVector', 'SparseLogicalVector') and r.random() < 0.3:
+                    ev['size'] = n + r.randint(0, 2)
+            elif how in ('dict', 'from_dict', 'from_set'):
+                keys = r.sample(range(n), r.randint(0, n))
+                nz = how != 'dict'
+                ev.update(how=how, size=n,
+                          data=[[k, self._val(r, how == 'from_set', nz)] for k in keys])
+            else:
+                ev.update(how=how, size=n)
+        else:
+            how = r.choice(['sparse', 'sparse', 'sparse_array', 'SparseArray', 'sparse_dicts', 'from_shape'])
+            if how == 'sparse_dicts':
+                ev.update(how=how, size=n, data=[[[k, self._val(r)] for k in r.sample(range(n), r.randint(0, n))]
+                                                 for _ in range(m)])
+            elif how == 'from_shape':
+                ev.update(how=how, size=[m, n])
+            else:
+                ev.update(how=how, data=_rand_data(r, kind, m, n, cfg['vals'], cfg['pz']),
+                          as_nd=r.random() < 0.4)
+        return ev
+
+    def _c_conv(self, r, f7):
+        src = self._pick(r)
+        isv = self.objs[src].kind == 'v'
+        hows = ['copy', 'sparse', 'abs', 'neg', 'invert', 'getself']
+        hows += (['sparse_vector', 'sparse_vector_copy', 'SparseVector', 'SparseLogicalVector'] if isv else
+                 ['sparse_array', 'sparse_array_copy', 'SparseArray', 'getself2'])
+        return {'op': 'conv', 'src': src, 'dst': self._dst(r), 'how': r.choice(hows)}
+
+    def _c_rows(self, r, f7):
+        first = self._pick(r, lambda o: o.kind == 'v')
+        if first is None:
+            return None
+        o0 = self.objs[first]
+        sh, b = self.shape(o0), self.is_bool(o0)
+        pool = self._names(lambda o: o.kind == 'v' and self.shape(o) == sh and self.is_bool(o) == b)
+        r.shuffle(pool)
+        srcs, seen = [], set()
+        for k in pool:
+            c = self.objs[k].cells[0]
+            if c not in seen:
+                seen.add(c)
+                srcs.append(k)
+        srcs = srcs[:r.randint(1, 3)]
+        return {'op': 'rows', 'srcs': srcs, 'dst': self._dst(r),
+                'how': r.choice(['from_rows', 'from_rows', 'SparseArray', 'sparse_array', 'sparse'])}
+
+    def _c_row(self, r, f7):
+        src = self._pick(r, lambda o: o.kind == 'a')
+        if src is None:
+            return None
+        m = len(self.objs[src].cells)
+        how = r.choice(['int', 'int', 'tuple', 'iter', 'list', 'nd', 'tlist', 'mask', 'ndmask', 'tmask', 'slice'])
+        if how in ('int', 'tuple', 'iter'):
+            i = r.randrange(m)
+        elif how in ('list', 'nd', 'tlist'):
+            i = r.sample(range(m), r.randint(1, m))
+        elif how in ('mask', 'ndmask', 'tmask'):
+            i = [r.random() < 0.6 for _ in range(m)]
+        else:
+            a = r.randint(0, m - 1)
+            i = [r.choice([None, a]), r.choice([None, r.randint(a + 1, m)]), r.choice([None, 1, 2])]
+        return {'op': 'row', 'src': src, 'dst': self._dst(r), 'how': how, 'i': i}
+
+    def _c_drop(self, r, f7):
+        if len(self.objs) < 5:
+            return None
+        return {'op': 'drop', 'target': self._pick(r)}
+
+    def _c_get(self, r, f7):
+        t = self._pick(r)
+        return {'op': 'get', 'target': t, 'index': self._rand_index(r, t)}
+
+    def _c_set(self, r, f7):
+        t = self._pick(r, prefer_ro=r.random() < 0.3)
+        o = self.objs[t]
+        index = self._rand_index(r, t)
+        ni = self._index(index, self.shape(o), True)
+        if ni is None:
+            return None
+        try:
+            sh = np.asarray(self.img(o)[ni]).shape
+        except (IndexError, ValueError):
+            return None
+        boolean = (r.random() < 0.7) if self.is_bool(o) else (r.random() < 0.08)
+        u = r.random()
+        if f7 and sh and sh[-1] >= 2:
+            value = self._array_spec(r, (sh[-1] + 1,), boolean, False, r.random() < 0.5)
+        elif u < 0.45 or not sh:
+            value = {'k': 'py', 'v': self._val(r, boolean)}
+            if r.random() < 0.1:
+                value = self._array_spec(r, r.choice([(1,), (1, 1)]), boolean, False, r.random() < 0.5)
+        elif u < 0.75:
+            value = self._array_spec(r, sh, boolean, False, r.random() < 0.5)
+        elif u < 0.82:
+            value = self._array_spec(r, (1,) + tuple(sh), boolean, False, r.random() < 0.5)
+        elif u < 0.88 and len(sh) == 2:
+            value = self._array_spec(r, sh[1:], boolean, False, r.random() < 0.5)
+        else:
+            cands = [k for k in sorted(self.objs) if self.shape(self.objs[k]) == tuple(sh)]
+            if not cands:
+                value = {'k': 'py', 'v': self._val(r, boolean)}
+            else:
+                mine = [k for k in cands if k in self._aliases_of(t)]
+                value = {'k': 'ref', 'name': r.choice(mine if mine and r.random() < 0.4 else cands)}
+        return {'op': 'set', 'target': t, 'index': index, 'value': value}
+
+    def _c_binop(self, r, f7):
+        t = self._pick(r)
+        tb = self.is_bool(self.objs[t])
+        opr = r.choice(ARITH + COMPARE + LOGICAL if tb else ARITH + ARITH + COMPARE)
+        other = self._rand_operand(r, t, opr, nonzero=(opr == 'truediv'), mismatch=f7)
+        if other is None:
+            return None
+        ev = {'op': 'binop', 'target': t, 'opr': opr, 'other': other}
+        if other['k'] != 'ref' and r.random() < 0.25:
+            ev['refl'] = True
+            if opr == 'truediv' and np.any(self.img(self.objs[t]) == 0):
+                ev['refl'] = False
+        if r.random() < 0.4:
+            ev['dst'] = self._dst(r)
+        return ev
+
+    def _c_iop(self, r, f7):
+        t = self._pick(r, prefer_ro=r.random() < 0.3)
+        tb = self.is_bool(self.objs[t])
+        opr = r.choice(['iadd', 'imul', 'iand', 'ior', 'ixor', 'iand', 'ior', 'ixor'] if tb
+                       else ['iadd', 'isub', 'imul', 'itruediv'])
+        other = self._rand_operand(r, t, opr[1:], nonzero=(opr == 'itruediv'), mismatch=f7)
+        if other is None:
+            return None
+        return {'op': 'iop', 'target': t, 'opr': opr, 'other': other,
+                'form': 'slice' if r.random() < 0.15 else 'plain'}
+
+    def _c_reduce(self, r, f7):
+        t = self._pick(r)
+        nd = len(self.shape(self.objs[t]))
+        ev = {'op': 'reduce', 'target': t, 'fn': r.choice(REDUCTIONS),
+              'axis': r.choice([None] + list(range(nd))), 'keepdims': r.random() < 0.4,
+              'style': r.choice(['kw', 'kw', 'pos', 'default'])}
+        if r.random() < 0.25:
+            ev['dst'] = self._dst(r)
+        return ev
+
+    def _c_clear(self, r, f7):
+        t = self._pick(r, lambda o: not (o.kind == 'v' and self.is_bool(o)), prefer_ro=r.random() < 0.3)
+        return None if t is None else {'op': 'clear', 'target': t}
+
+    def _c_setflags(self, r, f7):
+        t = self._pick(r, lambda o: not self.is_bool(o))
+        return None if t is None else {'op': 'setflags', 'target': t}
+
+    def _c_remove_negatives(self, r, f7):
+        return {'op': 'remove_negatives', 'target': self._pick(r, prefer_ro=r.random() < 0.3)}
+
+    def _c_mix_from(self, r, f7):
+        t = self._pick(r, lambda o: o.kind == 'v' and not self.is_bool(o), prefer_ro=r.random() < 0.2)
+        if t is None:
+            return None
+        sh = self.shape(self.objs[t])
+        pool = self._names(lambda o: o.kind == 'v' and not self.is_bool(o) and self.shape(o) == sh)
+        others = [r.choice(pool) for _ in range(r.randint(0, 4))]
+        if others and r.random() < 0.5:
+            others[r.randrange(len(others))] = t
+            if r.random() < 0.5:
+                others.insert(r.randint(0, len(others)), r.choice(self._aliases_of(t) if False else [t]))
+        return {'op': 'mix_from', 'target': t, 'others': others[:4]}
+
+    def _c_copy_like(self, r, f7):
+        t = self._pick(r, lambda o: not self.is_bool(o), prefer_ro=r.random() < 0.2)
+        if t is None:
+            return None
+        o = self.objs[t]
+        pool = self._names(lambda x: x.kind == o.kind and self.shape(x) == self.shape(o))
+        return {'op': 'copy_like', 'target': t, 'other': r.choice(pool)}
+
+    def _c_dense(self, r, f7):
+        t = self._pick(r)
+        hows = ['to_array', 'value', 'astype_float', 'tolist', 'to_list', 'to_flat_array',
+                'to_flat_array_into', 'asarray', 'iter', 'len', 'shape', 'size', 'vector_size', 'ndim',
+                'dtype', 'str']
+        if int(np.prod(self.shape(self.objs[t]))) == 1:
+            hows += ['float', 'bool', 'int'] * 3
+        return {'op': 'dense', 'target': t, 'how': r.choice(hows)}
+
+    def _c_from_flat(self, r, f7):
+        t = self._pick(r, prefer_ro=r.random() < 0.3)
+        o = self.objs[t]
+        size = int(np.prod(self.shape(o)))
+        boolean = self.is_bool(o) and r.random() < 0.8
+        return {'op': 'from_flat', 'target': t, 'data': [self._val(r, boolean) for _ in range(size)],
+                'as_nd': r.random() < 0.7}
+
+    def _c_query(self, r, f7):
+        t = self._pick(r)
+        hows = ['nonzero_index', 'nonzero', 'positive_index', 'negative_index', 'nonzero_keys',
+                'negative_keys', 'nonzero_values', 'nonzero_items', 'nonzero_items_fn', 'has_negatives']
+        if self.objs[t].kind == 'a':
+            hows += ['nonzero_rows', 'negative_rows']
+        return {'op': 'query', 'target': t, 'how': r.choice(hows)}
+
+    def _c_sum_of(self, r, f7):
+        t = self._pick(r)
+        o = self.objs[t]
+        n = self.shape(o)[-1]
+        index = r.randrange(n) if r.random() < 0.4 else r.sample(range(n), r.randint(1, n))
+        return {'op': 'sum_of', 'target': t, 'index': index,
+                'axis': None if o.kind == 'v' else r.choice([0, 1])}
+
+    def _c_sparse_equal(self, r, f7):
+        t = self._pick(r)
+        o = self.objs[t]
+        A = self.img(o)
+        u = r.random()
+        if u < 0.4:          # equal content in another container
+            other = {'k': 'nd' if r.random() < 0.5 else 'py', 'v': _plain(A)}
+            if other['k'] == 'nd':
+                other['dt'] = 'b' if A.dtype == bool else 'f'
+        elif u < 0.7:
+            other = self._array_spec(r, A.shape, A.dtype == bool, False, r.random() < 0.5)
+        else:
+            pool = self._names(lambda x: self.shape(x) == self.shape(o) and self.is_bool(x) == self.is_bool(o))
+            other = {'k': 'ref', 'name': r.choice(pool)}
+        return {'op': 'sparse_equal', 'target': t, 'other': other}
+
+    def _c_shares(self, r, f7):
+        t = self._pick(r, lambda o: not (o.kind == 'v' and self.is_bool(o)))
+        return None if t is None else {'op': 'shares', 'target': t, 'other': self._pick(r)}
+
+
+# ---------------------------------------------------------------------- module helpers
+def _deep_list(v):
+    if isinstance(v, list):
+        return [_deep_list(x) for x in v]
+    return v
+
+
+def _plain(a):
+    a = np.asarray(a)
+    if a.dtype == bool:
+        return a.tolist()
+    return [float(x) for x in a] if a.ndim == 1 else [[float(x) for x in row] for row in a]
+
+
+def _same(a, b):
+    a, b = np.asarray(a), np.asarray(b)
+    if a.shape != b.shape:
+        return False
+    if a.dtype.kind == 'f' or b.dtype.kind == 'f':
+        with np.errstate(all='ignore'):
+            return bool(np.array_equal(a.astype(float), b.astype(float), equal_nan=True))
+    return bool(np.array_equal(a, b))
+
+
+def _obs(res):
+    if res is None:
+        return 'ok'
+    if _is_sparse(res) or isinstance(res, np.ndarray):
+        return _jsonable(_dense(res))[:40]
+    if isinstance(res, (bool, int, float, np.generic, str)):
+        return repr(res)
+    return type(res).__name__
+
+
+def simplify_event(ev):
+    out = []
+    if ev.get('dst') is not None and ev.get('op') in ('binop', 'reduce'):
+        e = dict(ev)
+        e.pop('dst')
+        out.append(e)
+    if ev.get('form') == 'slice':
+        out.append(dict(ev, form='plain'))
+    if ev.get('refl'):
+        out.append(dict(ev, refl=False))
+    if ev.get('style') in ('pos', 'default'):
+        out.append(dict(ev, style='kw'))
+    for key in ('other', 'value'):
+        spec = ev.get(key)
+        if isinstance(spec, dict) and spec.get('k') == 'nd' and isinstance(spec.get('v'), list):
+            out.append(dict(ev, **{key: {'k': 'py', 'v': spec['v']}}))
+    if ev.get('as_nd'):
+        out.append(dict(ev, as_nd=False))
+    return out
+
+
+# ---------------------------------------------------------------------- known-finding regions
+REGIONS = {}
+# Each predicate(world, event, plan) describes exactly when one listed defect of the unchanged
+# library can fire; with the id in cfg['regions'] the generator does not emit such events.
+
+
+def _row_pairs(tc, oc):
+    """(target cell, operand cell) in the order the library walks the rows."""
+    if len(oc) == 1:
+        return [(c, oc[0]) for c in tc]
+    return list(zip(tc, oc))
+
+
+def _r_isub_self(w, ev, plan):
+    # a -= a (operand row IS the target row): `del dct[i]` while iterating other_dct.items()
+    if ev.get('op') != 'iop' or ev.get('opr') != 'isub':
+        return False
+    t = w.objs[ev['target']]
+    oc = w._operand_cells(ev['other'])
+    if not oc or w.is_bool(t):
+        return False
+    return any(a == b and bool(np.any(w.cells[a] != 0)) for a, b in _row_pairs(t.cells, oc))
+
+
+def _r_overlap_order(w, ev, plan):
+    # the operand shares storage with part of the target and is read after that part was updated
+    op = ev.get('op')
+    if op not in ('iop', 'set', 'copy_like'):
+        return False
+    t = w.objs[ev['target']]
+    spec = ev.get('other') if op == 'iop' else (ev.get('value') if op == 'set' else {'k': 'ref', 'name': ev.get('other')})
+    oc = w._operand_cells(spec)
+    if not oc or not (set(oc) & set(t.cells)):
+        return False
+    if op == 'set':
+        ix = ev['index']
+        full = ix.get('t') == 'slice' and ix.get('a') is None and ix.get('b') is None and ix.get('s') is None
+        if t.kind == 'v':
+            return not full
+        if full or ix.get('t') in ('int', 'slice', 'list', 'nd'):
+            shape = w.shape(t)
+            sel = np.arange(shape[0])[w._index(ix, (shape[0],), True)]
+            tc = [t.cells[k] for k in np.atleast_1d(sel)]
+        else:
+            return True
+        pairs = _row_pairs(tc, oc)
+        seen = set()
+        for a, b in pairs:
+            if b in seen:
+                return True
+            if a != b:
+                seen.add(a)
+        return False
+    pairs = _row_pairs(t.cells, oc)
+    seen = set()
+    for a, b in pairs:
+        if b in seen:
+            return True
+        if op == 'iop' or a != b:
+            seen.add(a)
+    return False
+
+
+def _r_readonly_bypass(w, ev, plan):
+    # write paths that never look at read_only
+    if plan.expect != 'reject' or plan.why != 'readonly-write':
+        return False
+    op = ev.get('op')
+    kind = w.objs[ev['target']].kind
+    if op in ('copy_like', 'remove_negatives'):
+        return True
+    if kind == 'v':
+        return op == 'mix_from'
+    if op in ('iop', 'clear', 'from_flat'):
+        return True
+    if op == 'set':
+        ix = ev['index']
+        if ix.get('t') in ('mask2', 'smask'):
+            return True
+        return (ix.get('t') == 'tuple' and len(ix['e']) == 2 and ix['e'][0].get('t') in ('list', 'nd')
+                and ix['e'][1].get('t') in ('int', 'list', 'nd'))
+    return False
+
+
+def _r_zip_rows(w, ev, plan):
+    # 2-d operand with another number of rows: zip() without strict stops at the shorter one
+    if plan.expect != 'reject' or plan.why != 'shape-mismatch' or ev.get('op') not in ('binop', 'iop'):
+        return False
+    t = w.objs[ev['target']]
+    if t.kind != 'a':
+        return False
+    A = w.img(t)
+    B = _strip(np.asarray(w._operand_np(ev['other'])))
+    if B.ndim != 2 or B.shape[0] == A.shape[0] or A.shape[0] < 2:
+        return False
+    return B.shape[1] == A.shape[1] or B.shape[1] == 1 or A.shape[1] == 1
+
+
+def _r_set_length(w, ev, plan):
+    # assignment of a value whose length differs from the selection ("size is not strict")
+    return ev.get('op') == 'set' and plan.expect == 'reject' and plan.why == 'shape-mismatch'
+
+
+def _r_underflow(w, ev, plan):
+    # products / quotients that underflow to 0.0 are stored
+    op = ev.get('op')
+    opr = ev.get('opr', '')
+    if op not in ('binop', 'iop') or opr.lstrip('i') not in ('mul', 'truediv') or plan.ref is None:
+        return False
+    if opr.startswith('i') and opr not in BINOPS:
+        opr = opr[1:]
+    t = w.objs[ev['target']]
+    A = w.img(t).astype(float)
+    B = np.asarray(w._operand_np(ev['other'])).astype(float)
+    ref = np.asarray(plan.ref).astype(float)
+    try:
+        if opr == 'mul':
+            exact_nonzero = (A != 0) & (B != 0)
+        else:
+            num = B if ev.get('refl') else A
+            exact_nonzero = np.broadcast_to(num != 0, np.broadcast(A, B).shape)
+        return bool(np.any(exact_nonzero & (ref.reshape(exact_nonzero.shape) == 0)))
+    except ValueError:
+        return False
+
+
+def _r_minmax_keepdims_zero(w, ev, plan):
+    # SparseArray.max/min(axis=None, keepdims=True) stores its value unconditionally
+    if ev.get('op') != 'reduce' or ev.get('fn') not in ('max', 'min') or not ev.get('keepdims'):
+        return False
+    t = w.objs[ev['target']]
+    return t.kind == 'a' and ev.get('axis') is None and plan.ref is not None and not np.any(plan.ref)
+
+
+def _r_anyall_keepdims_dict(w, ev, plan):
+    # SparseArray.any/all(axis=1, keepdims=True): rows that are False get `{}` (a dict) as their set
+    if ev.get('op') != 'reduce' or ev.get('fn') not in ('any', 'all') or not ev.get('keepdims'):
+        return False
+    t = w.objs[ev['target']]
+    return t.kind == 'a' and ev.get('axis') == 1 and plan.ref is not None and not np.all(plan.ref)
+
+
+def _r_rowmask_set_value(w, ev, plan):
+    # sa[row_mask] = array: the value is indexed with the ROW number instead of a running count
+    if ev.get('op') != 'set':
+        return False
+    t = w.objs[ev['target']]
+    if t.kind != 'a':
+        return False
+    ix = ev['index']
+    V = _strip(np.asarray(w._operand_np(ev['value'])))
+    if ix.get('t') == 'tuple':
+        # sa[row_mask, a:b] = 2-d value: the booleans themselves are used as row numbers
+        return ix['e'][0].get('t') == 'mask' and ix['e'][1].get('t') == 'slice' and V.ndim == 2
+    if ix.get('t') != 'mask' or V.ndim == 0:
+        return False
+    mask = ev['index']['v']
+    k = sum(mask)
+    prefix = all(mask[:k])
+    return not (V.ndim == 2 and prefix)
+
+
+def _full(e):
+    return e.get('t') == 'slice' and e.get('a') is None and e.get('b') is None and e.get('s') is None
+
+
+def _r_vector_iop_2d(w, ev, plan):
+    # v op= 2-d operand with len(operand) == v.size: the operand's ROWS are taken as its elements
+    if ev.get('op') != 'iop':
+        return False
+    t = w.objs[ev['target']]
+    if t.kind != 'v':
+        return False
+    B = _strip(np.asarray(w._operand_np(ev['other'])))
+    return B.ndim == 2 and B.shape[0] == w.shape(t)[0]
+
+
+def _r_clear_before_reject(w, ev, plan):
+    # row[:] = <2-d value>: the row is emptied BEFORE IndexError('cannot broadcast') is raised
+    if ev.get('op') != 'set':
+        return False
+    t = w.objs[ev['target']]
+    V = _strip(np.asarray(w._operand_np(ev['value'])))
+    if V.ndim != 2:
+        return False
+    ix = ev['index']
+    if t.kind == 'v':
+        return _full(ix) or (ix.get('t') == 'tuple' and _full(ix['e'][0]))
+    return (ix.get('t') == 'tuple' and ix['e'][0].get('t') == 'slice' and not _full(ix['e'][0])
+            and _full(ix['e'][1]))
+
+
+REGIONS.update({
+    'C09-vector-iop-2d': _r_vector_iop_2d,
+    'C09-clear-before-reject': _r_clear_before_reject,
+    'C09-isub-self': _r_isub_self,
+    'C09-overlap-order': _r_overlap_order,
+    'C09-readonly-bypass': _r_readonly_bypass,
+    'C09-zip-rows': _r_zip_rows,
+    'C09-set-length': _r_set_length,
+    'C09-underflow-stored-zero': _r_underflow,
+    'C09-minmax-keepdims-zero': _r_minmax_keepdims_zero,
+    'C09-anyall-keepdims-dict': _r_anyall_keepdims_dict,
+    'C09-rowmask-set-value': _r_rowmask_set_value,
+})
